@@ -96,6 +96,9 @@ func randomScenario(mode string, rng *rand.Rand, k int) scenario {
 		if rng.Intn(4) == 0 {
 			sc.Lookahead = 5
 		}
+		if rng.Intn(3) == 0 {
+			sc.Partial = true
+		}
 	}
 	sc.Name = fmt.Sprintf("%s-%d", mode, k)
 	return sc
